@@ -1,6 +1,7 @@
 """Shape kernels of the end-to-end glue (_crypto.cek_generate, _client._encrypt_blob): C19, C01."""
 import ast
 
+from ..flow import Flow
 from ..kernels import Kernel as K, Unsupported, _walk_own
 
 Z, B = "Z", "bool"
@@ -55,4 +56,15 @@ def _encrypt_blob_flow(func):
 KERNELS = [
     K("k_cek_generate_draws", "_crypto.py", "cek_generate", ("custom", _cek_generate), [], "(Z * Z)", props=("C19",)),
     K("k_encrypt_blob_flow", "_client.py", "_encrypt_blob", ("custom", _encrypt_blob_flow), [], B, props=("C19", "C01")),
+]
+
+# whole functions as Prelude/PyAst syntax; tie theorems in coq/Proofs/Flow_e2e.v
+FLOWS = [
+    Flow("k_flow_cek_decrypt", "_crypto.py", "cek_decrypt", props=("C04", "C01")),
+    Flow("k_flow_cek_encrypt", "_crypto.py", "cek_encrypt", props=("C01", "C19")),
+    Flow("k_flow_cek_generate", "_crypto.py", "cek_generate", props=("C19", "C01")),
+    Flow("k_flow_content_decrypt", "_crypto.py", "content_decrypt", props=("C04", "C01")),
+    Flow("k_flow_content_encrypt", "_crypto.py", "content_encrypt", props=("C01", "C19")),
+    Flow("k_flow_decrypt_blob", "_client.py", "_decrypt_blob", props=("C04", "C01")),
+    Flow("k_flow_encrypt_blob", "_client.py", "_encrypt_blob", props=("C01", "C19")),
 ]
